@@ -183,7 +183,172 @@ type redactArgs struct {
 	Restart bool        `json:"restart"`
 }
 
+// one step of a history: submit (params, tls), restart, status / cancel / release / force-release of the
+// unit created by the Unit-th successful submit, list
+type redactStep struct {
+	Kind   string      `json:"kind"`
+	Params [][2]string `json:"params"`
+	TLS    string      `json:"tls,omitempty"`
+	Unit   int         `json:"unit"`
+}
+
+type redactHistArgs struct {
+	Steps []redactStep `json:"steps"`
+}
+
+func redactParamsOf(status interface{}) [][2]string {
+	rep := [][2]string{}
+	if m, ok := status.(map[string]interface{}); ok {
+		if ed, ok := m["ExtraData"].(map[string]interface{}); ok {
+			if rp, ok := ed["RemoteParams"].(map[string]interface{}); ok {
+				for k, v := range rp {
+					rep = append(rep, [2]string{verifHex([]byte(k)), verifHex([]byte(fmt.Sprint(v)))})
+				}
+			}
+		}
+	}
+	sort.Slice(rep, func(i, j int) bool { return rep[i][0] < rep[j][0] })
+	return rep
+}
+
+func redactHistory(raw json.RawMessage) interface{} {
+	var a redactHistArgs
+	if err := json.Unmarshal(raw, &a); err != nil {
+		panic(err)
+	}
+	dir, err := os.MkdirTemp("", "verif-redact")
+	if err != nil {
+		panic(err)
+	}
+	defer os.RemoveAll(dir)
+	vw := verifNewWorld(dir)
+	defer func() { vw.close() }()
+	ids := []string{}         // unit id of the k-th successful submit
+	ordinal := map[string]int{}
+	secrets := []string{}
+	texts := []string{}
+	outs := []interface{}{}
+	jsonRound := func(res map[string]interface{}) map[string]interface{} {
+		b, _ := json.Marshal(res)
+		texts = append(texts, string(b))
+		var m map[string]interface{}
+		_ = json.Unmarshal(b, &m)
+		return m
+	}
+	idOf := func(k int) string {
+		if k >= 0 && k < len(ids) {
+			return ids[k]
+		}
+		return "nosuchunit"
+	}
+	for _, st := range a.Steps {
+		switch st.Kind {
+		case "submit":
+			cfg := map[string]interface{}{"command": "work", "subcommand": "submit", "node": "far-away", "worktype": "anything"}
+			if st.TLS != "" {
+				cfg["tlsclient"] = st.TLS
+			}
+			for _, kv := range st.Params {
+				k, v := string(verifUnhex(kv[0])), string(verifUnhex(kv[1]))
+				cfg[k] = v
+				if strings.HasPrefix(strings.ToLower(k), "secret_") {
+					secrets = append(secrets, v)
+				}
+			}
+			before := map[string]bool{}
+			for _, id := range vw.w.ListKnownUnitIDs() {
+				before[id] = true
+			}
+			res, err, _ := vw.command(cfg, "unix", "input")
+			if res != nil {
+				jsonRound(res)
+			}
+			if err != nil {
+				texts = append(texts, err.Error())
+			}
+			created := ""
+			for _, id := range vw.w.ListKnownUnitIDs() {
+				if !before[id] {
+					created = id
+				}
+			}
+			switch {
+			case created != "":
+				ordinal[created] = len(ids)
+				ids = append(ids, created)
+				outs = append(outs, map[string]interface{}{"k": "done"})
+			case err != nil && strings.Contains(err.Error(), "secrets over a non-TLS"):
+				outs = append(outs, map[string]interface{}{"k": "refusedSecrets"})
+			default:
+				outs = append(outs, map[string]interface{}{"k": "error", "text": fmt.Sprint(err)})
+			}
+		case "restart":
+			vw.close()
+			vw = verifNewWorld(dir)
+			outs = append(outs, map[string]interface{}{"k": "restarted"})
+		case "status":
+			res, err, _ := vw.command(map[string]interface{}{"command": "work", "subcommand": "status", "unitid": idOf(st.Unit)}, "tcp", "")
+			if err != nil {
+				texts = append(texts, err.Error())
+				outs = append(outs, map[string]interface{}{"k": "notFound"})
+			} else {
+				outs = append(outs, map[string]interface{}{"k": "shown", "l": []interface{}{[]interface{}{st.Unit, redactParamsOf(jsonRound(res))}}})
+			}
+		case "list":
+			res, err, _ := vw.command(map[string]interface{}{"command": "work", "subcommand": "list"}, "tcp", "")
+			if err != nil {
+				outs = append(outs, map[string]interface{}{"k": "error", "text": err.Error()})
+				break
+			}
+			m := jsonRound(res)
+			type ent struct {
+				o int
+				p [][2]string
+			}
+			l := []ent{}
+			for id, stt := range m {
+				o, ok := ordinal[id]
+				if !ok {
+					o = -1
+				}
+				l = append(l, ent{o, redactParamsOf(stt)})
+			}
+			sort.Slice(l, func(i, j int) bool { return l[i].o < l[j].o })
+			ll := []interface{}{}
+			for _, e := range l {
+				ll = append(ll, []interface{}{e.o, e.p})
+			}
+			outs = append(outs, map[string]interface{}{"k": "shown", "l": ll})
+		case "cancel", "release", "force-release":
+			res, err, _ := vw.command(map[string]interface{}{"command": "work", "subcommand": st.Kind, "unitid": idOf(st.Unit)}, "tcp", "")
+			if res != nil {
+				jsonRound(res)
+			}
+			if err != nil {
+				texts = append(texts, err.Error())
+				outs = append(outs, map[string]interface{}{"k": "notFound"})
+			} else {
+				outs = append(outs, map[string]interface{}{"k": "done"})
+			}
+		default:
+			panic("verif: unknown step " + st.Kind)
+		}
+	}
+	leak := false
+	for _, t := range texts {
+		for _, s := range secrets {
+			if s != "" && strings.Contains(t, s) {
+				leak = true
+			}
+		}
+	}
+	return map[string]interface{}{"outs": outs, "leak": leak}
+}
+
 func redactApply(op string, raw json.RawMessage) interface{} {
+	if op == "history" {
+		return redactHistory(raw)
+	}
 	var a redactArgs
 	if err := json.Unmarshal(raw, &a); err != nil {
 		panic(err)
@@ -288,6 +453,44 @@ func redactGen(v *verifRun) {
 			a.Params = [][2]string{}
 		}
 		v.do(redactApply, "submit", a)
+	}
+	// histories: several submissions, restarts, and every command that concerns a unit, interleaved
+	for i := 0; i < v.n/10; i++ {
+		h := redactHistArgs{}
+		submits := 0
+		for j := 2 + v.rng.Intn(9); j > 0; j-- {
+			r := v.rng.Intn(10)
+			switch {
+			case r < 3 || submits == 0:
+				st := redactStep{Kind: "submit", Params: [][2]string{}}
+				if v.rng.Intn(3) != 0 {
+					st.TLS = "tlsclient"
+				}
+				used := map[string]bool{}
+				for k := v.rng.Intn(5); k > 0; k-- {
+					key := keys[v.rng.Intn(len(keys))]
+					if used[strings.ToLower(key)] {
+						continue
+					}
+					used[strings.ToLower(key)] = true
+					st.Params = append(st.Params, [2]string{hx(key), hx(fmt.Sprintf("VALUE-%d-%d-%d", i, j, k))})
+				}
+				h.Steps = append(h.Steps, st)
+				submits++
+			case r == 3:
+				h.Steps = append(h.Steps, redactStep{Kind: "restart"})
+			case r < 6:
+				h.Steps = append(h.Steps, redactStep{Kind: "status", Unit: v.rng.Intn(submits + 1)})
+			case r < 8:
+				h.Steps = append(h.Steps, redactStep{Kind: "list"})
+			case r == 8:
+				h.Steps = append(h.Steps, redactStep{Kind: "cancel", Unit: v.rng.Intn(submits + 1)})
+			default:
+				h.Steps = append(h.Steps, redactStep{Kind: []string{"release", "force-release"}[v.rng.Intn(2)], Unit: v.rng.Intn(submits + 1)})
+			}
+		}
+		h.Steps = append(h.Steps, redactStep{Kind: "list"})
+		v.do(redactApply, "history", h)
 	}
 }
 
